@@ -286,6 +286,34 @@ func runC17(r *ev.Recorder) {
 		}
 	})
 	r.Count("key_order_keys", ne)
+	// (h) plain values around every power-of-two-ish size (raw-string branch), and many short pairs
+	for n := 200; n <= 300; n++ {
+		one(map[string]string{"k": strings.Repeat("a", n)}, false)
+	}
+	for _, n := range []int{500, 1000, 4095, 4096, 4097, 65535, 65536, 70000} {
+		one(map[string]string{"k": strings.Repeat("b", n), "j": "x"}, false)
+		one(map[string]string{"k": strings.Repeat("b", n)}, true)
+	}
+	for _, nk := range []int{30, 41, 64, 100} {
+		m := map[string]string{}
+		for i := 0; i < nk; i++ {
+			m[fmt.Sprintf("key%03d", i)] = "v"
+		}
+		one(m, false)
+	}
+	// (i) a map that is empty when handed to Tag and filled before the render
+	{
+		m := map[string]string{}
+		st := jen.Type().Id("T").Struct(jen.Id("F").Int().Tag(m), jen.Id("G").String())
+		m["json"] = "late"
+		got := jh.Raw(st)
+		want := jh.Raw(jen.Type().Id("T").Struct(jen.Id("F").Int().Tag(map[string]string{"json": "late"}), jen.Id("G").String()))
+		r.Eval(1)
+		r.Distinct("empty-then-filled")
+		if got.Key() != want.Key() {
+			r.Violate(ev.Violation{Signature: "c17:map-filled-after-Tag", What: fmt.Sprintf("Tag(m) with m empty at the call and filled before rendering renders %q, want %q", got, want), Case: ev.JSON(c17Case{Keys: []string{"shared-map"}})})
+		}
+	}
 	// (g) many keys and long values
 	for _, nk := range []int{5, 9, 17, 40} {
 		m := map[string]string{}
